@@ -67,6 +67,12 @@ def _pos_multiple(a, b):
     return r.is_const() and r.const_value() > 0
 
 
+def _one_sym(r):
+    """the symbol when the Rat is exactly one symbol"""
+    ats = list(r.atoms()) if isinstance(r, Rat) else []
+    return ats[0] if len(ats) == 1 and isinstance(ats[0], Sym) and r == Rat.atom(ats[0]) else None
+
+
 def _not_arg(c):
     """negation of a condition in App-argument form; the negation of an ordered comparison stays a negation (`not (d <= 0)`
     is not `-d < 0` when d is NaN: a squared distance computed from NaN coordinates)"""
@@ -521,6 +527,33 @@ def check_target_test(prog, rep, f, entry, k, L, gt, src, vals, px):
     """X6: default targets are the non-zero finite cells; with explicit values a cell is a target iff it equals one"""
     v = App('read', [src, px])
     atoms = guard_atoms([gt])
+    # the test as one call of a boolean helper `is_target(cell value, values)`: the helper is pure Python over numbers (length,
+    # comparisons, a finiteness test, a loop with early returns), so it is folded (consteval) on the cases of the table below
+    hc = [a for a in atoms if isinstance(a, App) and a.name.startswith('call:') and len(a.args) == 2 and a.args[0] == Rat.atom(v)]
+    if gt[0] == 'truth' and len(atoms) >= 1 and len(hc) == 1 and _one(gt[1]) is hc[0]:
+        from ..consteval import CannotFold, fold_call
+        h = f.module.funcs.get(hc[0].name[len('call:'):])
+        if h is not None and len(h.params) == 2:
+            INF, NAN = float('inf'), float('nan')
+            near = Fraction(5) + Fraction(1, 10 ** 40)
+            cases = [('no values, zero cell', 0, [], False), ('no values, finite non-zero', 5, [], True), ('no values, negative', -2, [], True),
+                     ('no values, +inf', INF, [], False), ('no values, NaN', NAN, [], False),
+                     ('values given, cell equals the first', 5, [5, 7], True), ('values given, cell equals the last', 7, [5, 6, 7], True),
+                     ('values given, equals none', 6, [5, 7], False), ('values given, zero cell equal to a value', 0, [3, 0], True),
+                     ('values given, zero cell, no zero among them', 0, [3], False),
+                     ('values given, a value next to the cell (closer than any tolerance)', 5, [near], False)]
+            bad = []
+            try:
+                for title, cellv, lst, want in cases:
+                    got = fold_call(prog, h, args=(cellv, list(lst)))
+                    if bool(got) != want:
+                        bad.append((title, got))
+                rep.add('X6', f, entry, 'target test: %s(cell, values) on %d cases' % (h.name, len(cases)), L.node.lineno, not bad,
+                        'default targets are the non-zero finite cells; with explicit target values a cell is a target iff it equals one '
+                        'of them: wrong for %s' % bad)
+                return
+            except CannotFold:
+                pass
     # the number of target values: len(values) or values.shape[0]
     n_at = [a for a in atoms if isinstance(a, App) and (a.name == 'len' or (a.name == 'shape' and len(a.args) == 2 and a.args[0] == vals and a.args[1] in (0, Rat.const(0))))]
     fin = [a for a in atoms if isinstance(a, App) and a.name == 'isfinite' and a.args[0] == Rat.atom(v)]
@@ -551,8 +584,31 @@ def check_target_test(prog, rep, f, entry, k, L, gt, src, vals, px):
     try:
         if len(n_at) != 1 or len(fin) > 1 or len(flags) > 1:
             raise CannotEvaluate('quantities: len %d isfinite %d flags %d' % (len(n_at), len(fin), len(flags)))
+        # a membership helper read in place (`for i in range(len(values)): if cell == values[i]: return True` ... `return False`):
+        # the element read under the helper's own loop variable stands for "some element"; the loop must run over all of them
+        probe = None
+        if not flags and len(elems) == 1 and len(elems[0].args) == 2 and isinstance(elems[0].args[1], Rat):
+            iv = _one_sym(elems[0].args[1])
+            loops_ = list(k.loops) + [lp for r_ in getattr(k, 'inlined', []) if len(r_) > 5 for lp in getattr(r_[5], 'loops', [])]
+            Li = next((lp for lp in loops_ if iv is not None and lp.var == iv.name), None)
+            if Li is not None and Li.kind in ('range', 'prange') and Li.lo == Rat.const(0) and Li.hi == Rat.atom(n_at[0]) and Li.step == Rat.const(1):
+                probe = elems[0]
+            elif Li is not None:
+                raise CannotEvaluate('the values are not all looked at: loop %r' % (Li,))
         res = []
-        for title, n, vv, fn, flag, want in (('no values, zero cell', 0, 0, 1, 0, False), ('no values, finite non-zero', 0, 5, 1, 0, True),
+        if probe is not None:
+            near = Fraction(5) + Fraction(1, 10 ** 40)
+            for title, n, vv, fn, ev, want in (('no values, zero cell', 0, 0, 1, 0, False), ('no values, finite non-zero', 0, 5, 1, 9, True),
+                                               ('no values, non-finite', 0, 5, 0, 5, False), ('no values, negative', 0, -2, 1, 9, True),
+                                               ('values given, cell equals the element', 2, 5, 1, 5, True), ('values given, differs', 2, 5, 1, 7, False),
+                                               ('values given, zero cell equal to the element', 2, 0, 1, 0, True),
+                                               ('values given, non-finite cell equal to the element', 2, 5, 0, 5, True),
+                                               ('values given, element next to the cell (closer than any tolerance)', 2, 5, 1, near, False)):
+                env = {n_at[0]: Fraction(n), v: Fraction(vv), probe: Fraction(ev)}
+                for a in fin:
+                    env[a] = Fraction(fn)
+                res.append((title, eval_cond_full(gt, env), want))
+        for title, n, vv, fn, flag, want in () if probe is not None else (('no values, zero cell', 0, 0, 1, 0, False), ('no values, finite non-zero', 0, 5, 1, 0, True),
                                              ('no values, non-finite', 0, 5, 0, 0, False), ('no values, negative', 0, -2, 1, 0, True),
                                              ('values given, cell equals one', 2, 5, 1, 1, True), ('values given, equals none', 2, 5, 1, 0, False),
                                              ('values given, zero cell equal to a value', 2, 0, 1, 1, True)):
